@@ -191,6 +191,10 @@ for tname, expect in (('EOF', 'result is False'), ('END', 'result is False'), ('
     c.setup(_setup)
     c.ensures('by-token-class', expect)
     c.ensures('pure', "errs() == old(errs()) and tokens_consumed() == old(tokens_consumed()) and len(emitted(self)) == 0")
+# asked without saying whether registers count (print hue, the count of a repeat, the end of a range): they do - a register is a value
+c = contract('bardolph/parser/parse.py', 'Parser._at_rvalue', serves=['C16', 'C06', 'C19'], uses=('parser',), name='Parser._at_rvalue[REGISTER, asked the plain way]')
+c.setup(lambda b, case: {'self': PL.parser(b, first_token=PL.concrete_token(b.I, 'REGISTER', 'hue'))})
+c.ensures('a-register-is-a-value', 'result is True')
 for mark in '{[':
     c = contract('bardolph/parser/parse.py', 'Parser._at_rvalue', serves=['C16', 'C06'], uses=('parser',), name="Parser._at_rvalue[MARK '%s']" % mark)
     c.setup(lambda b, case, mark=mark: {'self': PL.parser(b, first_token=PL.concrete_token(b.I, 'MARK', mark)), 'include_reg': b.sym('bool', 'include_reg')})
